@@ -599,7 +599,10 @@ theorem pool_marks_exact (e : Epoch) (ops : List PoolOp) (hc : Consistent (poolL
       · by_cases h0 : 1 ≤ b.1
         · exact Or.inr (Or.inr ((ri.final_iff hc.safe b (Or.inl h0)).mpr a))
         · left
-          exact (hc.safe.notar_final (0, 0) b (Or.inl rfl) a (by simp; omega)).symm
+          have hb0 : b.1 = 0 := by omega
+          have hb' : b = (0, b.2) := Prod.ext hb0 rfl
+          rw [hb'] at a
+          exact Prod.ext hb0 (hc.genesis b.2 a)
   · intro s
     rw [ti.sk, ri.skip_iff hc.safe]
 
